@@ -44,10 +44,12 @@ Init == /\ mu = "free"
         /\ round = [p \in Procs |-> 0] /\ result = [p \in Procs |-> "none"]
 
 \* ---- calls ----
-\* a rogue Unlock of a key nobody holds is in flight (no new Lock call is started meanwhile: the property speaks of
-\* unlocking a key that IS NOT held; a rogue unlock racing with an acquisition could legitimately steal the lock)
-RogueInFlight == \E q \in Procs : pc[q] \in {"ul_start", "ul_inMu", "ul_recv"} /\ ~holds[q]
-CallLock(p, k) == /\ pc[p] = "idle" /\ ~holds[p] /\ round[p] < Rounds /\ ~RogueInFlight
+\* a rogue Unlock of key k -- a key nobody holds -- is in flight. The property speaks of unlocking a key that IS NOT
+\* held: a rogue unlock racing with an acquisition could legitimately take that holder's lock away, so nobody acquires
+\* k while one is in flight (the harness runs a rogue unlock to completion while every other goroutine is parked).
+\* Goroutines that have registered for k without having acquired it may be anywhere in their Lock call.
+RogueOn(k) == \E q \in Procs : pc[q] \in {"ul_start", "ul_inMu", "ul_recv"} /\ ~holds[q] /\ key[q] = k
+CallLock(p, k) == /\ pc[p] = "idle" /\ ~holds[p] /\ round[p] < Rounds
                   /\ pc' = [pc EXCEPT ![p] = "lk_start"] /\ key' = [key EXCEPT ![p] = k]
                   /\ cancelled' = [cancelled EXCEPT ![p] = FALSE] /\ round' = [round EXCEPT ![p] = @ + 1]
                   /\ result' = [result EXCEPT ![p] = "none"]
@@ -56,7 +58,7 @@ CallUnlock(p) ==  /\ pc[p] = "idle" /\ holds[p]
                   /\ pc' = [pc EXCEPT ![p] = "ul_start"] /\ result' = [result EXCEPT ![p] = "none"]
                   /\ UNCHANGED <<mu, inMap, ref, full, key, cancelled, holds, round>>
 CallBadUnlock(p, k) == /\ BadUnlock /\ pc[p] = "idle" /\ ~holds[p] /\ round[p] < Rounds
-                       /\ \A q \in Procs : pc[q] = "idle" /\ ~holds[q]        \* nobody holds or awaits anything
+                       /\ \A q \in Procs : ~(holds[q] /\ key[q] = k)          \* nobody holds k (or is giving it back)
                        /\ pc' = [pc EXCEPT ![p] = "ul_start"] /\ key' = [key EXCEPT ![p] = k]
                        /\ round' = [round EXCEPT ![p] = @ + 1] /\ result' = [result EXCEPT ![p] = "none"]
                        /\ UNCHANGED <<mu, inMap, ref, full, cancelled, holds>>
@@ -72,7 +74,7 @@ LockLeave(p) == /\ pc[p] = "lk_inMu" /\ mu = p
 LockCheckCtx(p) == /\ pc[p] = "lk_ctx"
                    /\ pc' = [pc EXCEPT ![p] = IF cancelled[p] THEN "ret_start" ELSE "lk_select"]
                    /\ UNCHANGED <<mu, inMap, ref, full, key, cancelled, holds, round, result>>
-LockAcquire(p) == /\ pc[p] = "lk_select" /\ ~full[key[p]]
+LockAcquire(p) == /\ pc[p] = "lk_select" /\ ~full[key[p]] /\ ~RogueOn(key[p])
                   /\ full' = [full EXCEPT ![key[p]] = TRUE] /\ holds' = [holds EXCEPT ![p] = TRUE]
                   /\ pc' = [pc EXCEPT ![p] = "idle"] /\ result' = [result EXCEPT ![p] = "true"]
                   /\ UNCHANGED <<mu, inMap, ref, key, cancelled, round>>
